@@ -419,6 +419,48 @@ func universal(sc *Scn, x *vrt.Sched, w *World) []Finding {
 		}
 	}
 
+	// with a debug-level logger gldap says which requests it has read ("packet read ... conn=N requestID=K"):
+	// a request that was read and is a well-formed request of a supported kind must have been dispatched,
+	// whatever Stop was doing meanwhile (single-connection scenarios: the connection needs no mapping)
+	if sp.Srv.Debug && len(sp.Conns) == 1 && stopped && w.RunDone {
+		cs := sp.Conns[0]
+		w.LogBuf.mu.Lock()
+		lines := append([]string(nil), w.LogBuf.lines...)
+		w.LogBuf.mu.Unlock()
+		for _, l := range lines {
+			i := strings.Index(l, "packet read")
+			if i < 0 {
+				continue
+			}
+			var conn, k int
+			if j := strings.Index(l, "conn="); j >= 0 {
+				fmt.Sscanf(l[j:], "conn=%d", &conn)
+			}
+			if j := strings.Index(l, "requestID="); j >= 0 {
+				fmt.Sscanf(l[j:], "requestID=%d", &k)
+			}
+			if k < 1 || k > len(cs.Ops) {
+				continue
+			}
+			op := cs.Ops[k-1]
+			if isUnbind(op) || op == "garbage" || op == "compare" || strings.HasPrefix(op, "starttls") || op == "tls-closewrite" {
+				continue
+			}
+			if h := cs.H[k]; h != nil && h.Panic != "" {
+				continue
+			}
+			found := false
+			for _, d := range w.Dispatch {
+				if d.Conn == conn && d.Req == k {
+					found = true
+				}
+			}
+			if !found {
+				add("C03", "a request that was read and decoded is never passed to a handler", fmt.Sprintf("gldap logged %q, but request #%d (%s) of connection %d was not dispatched; dispatched: %v", strings.TrimSpace(l[i:]), k, op, conn, w.Dispatch))
+			}
+		}
+	}
+
 	// ---- C10: nothing after Unbind
 	for ci, cs := range sp.Conns {
 		u := -1
